@@ -129,6 +129,15 @@ def make_file(rnd, ver):
 
 def run(ctx):
     rnd = random.Random(ctx.seed)
+    # generator-grain sessions on one object (spec/Sessions.tla): listings read alternately, abandoned half way, options
+    # edited in place between requests; every next() validated by Sessions_Val, design model-checked by Sessions_MC
+    from . import sessions
+    from . import c13 as _c13
+    sessions.model_check(ctx)
+    for i_ in range(2):
+        sessions.run_sessions(ctx, random.Random(ctx.seed * 2 + 77 + i_), 120 if ctx.quick else 2500, ('kev', 'fkev', 'tr'),
+                              lambda r, world=None: _c13.gen_dump(r, world=world, orphans=0.1, samples=0.1),
+                              _c13.gen_cfg, 'ses%d_' % i_)
     r3 = ctx.expect_ok(run_tlc('Truncation', CFG % ('TRUE', 'v3'), ctx.workdir, name='trunc_v3', timeout=3600,
                                args=['-coverage', '1']))
     r2 = ctx.expect_ok(run_tlc('Truncation', CFG % ('TRUE', 'v2'), ctx.workdir, name='trunc_v2', timeout=3600,
